@@ -23,18 +23,31 @@ structure Prod where
   pendingRing : Bool := false
   deriving Repr, DecidableEq
 
+/-- the two orders in which `async_runtime_wait` can treat doorbell and ring -/
+inductive Order
+  | bellFirst      -- the code: read (reset) the doorbell, THEN lock and take the ring, re-arm under the lock
+  | ringFirst      -- the "optimisation": lock, take the ring, unlock, THEN reset the doorbell if the ring was emptied
+  deriving Repr, DecidableEq
+
+/-- where the backend thread is inside `async_runtime_wait` -/
 inductive CPhase
   | idle
   | polled (max : Nat)       -- epoll_wait reported the eventfd readable
-  | drained (max : Nat)      -- eventfd read (counter reset), ring not yet taken
+  | drained (max : Nat)      -- bellFirst: eventfd read (counter reset), ring_lock not taken yet
+  | took                     -- bellFirst: ring_lock held, entries copied out, re-arm write not made yet
+  | rearmed                  -- bellFirst: re-arm write made (if needed), ring_lock still held
+  | tookS (emptied : Bool)   -- ringFirst: ring_lock held, entries copied out
+  | unlockedS (emptied : Bool)  -- ringFirst: ring_lock released, doorbell not reset yet
   deriving Repr, DecidableEq
 
 structure RtSys where
+  order : Order := .bellFirst
   rt : Rt := {}
+  locked : Bool := false                -- ring_lock held by the backend thread (producers hold it only inside one atomic step)
   prods : List Prod
   waits : List Nat                      -- the consumer's remaining `wait(max)` calls
   cph : CPhase := .idle
-  delivered : List (List Item) := []    -- result of every completed wait, oldest first
+  delivered : List (List Item) := []    -- what every wait copied into the caller's array, oldest first
   accepted : List Item := []            -- ghost: completions pushed (post returned 0), in push order
   refused : List Item := []             -- ghost: posts that found the ring full (returned -1)
   deriving Repr
@@ -42,10 +55,11 @@ structure RtSys where
 def postsOf (todo : List POp) : List Item :=
   todo.filterMap fun | .post k d => some (k, d) | .wakeup => none
 
-def RtSys.init (progs : List (List POp)) (waits : List Nat) : RtSys :=
-  { prods := progs.map (fun t => { todo := t }), waits }
+def RtSys.init (progs : List (List POp)) (waits : List Nat) (order : Order := .bellFirst) : RtSys :=
+  { order, prods := progs.map (fun t => { todo := t }), waits }
 
-/-- one atomic action of producer `i` -/
+/-- one atomic action of producer `i`: the locked push (blocked while the backend holds ring_lock), or the
+    doorbell write (never blocked) -/
 def RtSys.prodStep (s : RtSys) (i : Nat) : RtSys :=
   match s.prods[i]? with
   | none => s
@@ -56,7 +70,8 @@ def RtSys.prodStep (s : RtSys) (i : Nat) : RtSys :=
       | [] => s
       | .wakeup :: r => { s with rt := s.rt.ringBell, prods := s.prods.set i { p with todo := r } }
       | .post k d :: r =>
-        match s.rt.push (k, d) with
+        if s.locked then s                                    -- pthread_mutex_lock blocks
+        else match s.rt.push (k, d) with
         | (rt', true) => { s with rt := rt', prods := s.prods.set i { todo := r, pendingRing := true },
                                   accepted := s.accepted ++ [(k, d)] }
         | (_, false) => { s with prods := s.prods.set i { p with todo := r }, refused := s.refused ++ [(k, d)] }
@@ -69,11 +84,20 @@ def RtSys.consStep (s : RtSys) : RtSys :=
     | [] => s
     | m :: r =>
       if s.rt.poll then { s with cph := .polled m, waits := r }
-      else { s with waits := r, delivered := s.delivered ++ [[]] }
-  | .polled m => { s with rt := s.rt.drain, cph := .drained m }
+      else { s with waits := r, delivered := s.delivered ++ [[]] }       -- nothing readable: the wait sleeps / times out
+  | .polled m =>
+    match s.order with
+    | .bellFirst => { s with rt := s.rt.drain, cph := .drained m }
+    | .ringFirst =>
+      { s with rt := (s.rt.take m).1, locked := true, cph := .tookS (s.rt.take m).1.ring.isEmpty,
+               delivered := s.delivered ++ [(s.rt.take m).2] }
   | .drained m =>
-    let (rt', out) := s.rt.pop m
-    { s with rt := rt', cph := .idle, delivered := s.delivered ++ [out] }
+    { s with rt := (s.rt.take m).1, locked := true, cph := .took, delivered := s.delivered ++ [(s.rt.take m).2] }
+  | .took => { s with rt := s.rt.rearm, cph := .rearmed }
+  | .rearmed => { s with locked := false, cph := .idle }
+  | .tookS e => if s.order = .ringFirst then { s with locked := false, cph := .unlockedS e } else s
+  | .unlockedS e =>
+    if s.order = .ringFirst then { s with rt := if e then s.rt.drain else s.rt, cph := .idle } else s
 
 /-- scheduler choice `i`: producer `i` when `i < #producers`, the consumer otherwise -/
 def RtSys.step (s : RtSys) (i : Nat) : RtSys :=
